@@ -18,7 +18,7 @@ VERIF = os.path.dirname(os.path.dirname(os.path.abspath(__file__)))
 OUT = os.path.join(VERIF, 'out')
 REPLAYS = os.path.join(OUT, 'replays')
 EVIDENCE = os.path.join(VERIF, 'evidence')
-KNOWN = os.path.join(VERIF, 'known_findings.jsonl')
+KNOWN = os.path.join(VERIF, 'known_findings.txt')
 
 SEED_MULT = 1_000_003
 
@@ -37,7 +37,7 @@ def _worker_batch(args):
     agg = {
         'n': 0, 'limit': 0, 'ambiguous': 0, 'sim_us': 0, 'steps': 0, 'nontrivial': 0,
         'stats': collections.Counter(), 'order': set(), 'viol': [], 'fault_free': 0, 'samples': [],
-        'harness': [], 'other_props': collections.Counter(),
+        'harness': [], 'other_props': collections.Counter(), 'sigcount': collections.Counter(),
     }
     for seed in seeds:
         try:
@@ -66,23 +66,40 @@ def _worker_batch(args):
             agg['samples'].append(sc)
         for v in res.violations:
             if v['property'] == prop:
-                if len(agg['viol']) < 40:
+                agg['sigcount'][v['signature']] += 1
+                if agg['sigcount'][v['signature']] <= 2:
                     agg['viol'].append((seed, v))
             else:
                 agg['other_props'][v['signature']] += 1
     faulthandler.cancel_dump_traceback_later()
     agg['stats'] = dict(agg['stats'])
     agg['other_props'] = dict(agg['other_props'])
+    agg['sigcount'] = dict(agg['sigcount'])
     return agg
 
 
 def load_known():
+    """known_findings.txt: `open:` / `fixed:` lines with signature=<glob> and what=<text to end of line>."""
     out = []
     if os.path.exists(KNOWN):
         for line in open(KNOWN):
             line = line.strip()
-            if line:
-                out.append(json.loads(line))
+            if not line or line.startswith('#'):
+                continue
+            status, _, rest = line.partition(':')
+            status = status.strip()
+            if status not in ('open', 'fixed'):
+                continue
+            head, _, what = rest.partition(' what=')
+            rec = {'status': status, 'what': what.strip()}
+            for tok in head.split():
+                if '=' in tok:
+                    k, v = tok.split('=', 1)
+                    rec[k] = v
+                elif status == 'fixed':
+                    rec['commit'] = tok
+            if 'signature' in rec:
+                out.append(rec)
     return out
 
 
@@ -194,7 +211,7 @@ def check(prop, tier, level, rule_text, components_real, components_stub, assump
     total = {
         'n': 0, 'limit': 0, 'ambiguous': 0, 'sim_us': 0, 'steps': 0, 'nontrivial': 0, 'fault_free': 0,
         'stats': collections.Counter(), 'order': set(), 'viol': [], 'samples': [], 'harness': [],
-        'other_props': collections.Counter(),
+        'other_props': collections.Counter(), 'sigcount': collections.Counter(),
     }
     ctx = multiprocessing.get_context('fork')
     next_i = 0
@@ -226,6 +243,7 @@ def check(prop, tier, level, rule_text, components_real, components_stub, assump
                     total[k] += agg[k]
                 total['stats'].update(agg['stats'])
                 total['other_props'].update(agg['other_props'])
+                total['sigcount'].update(agg['sigcount'])
                 total['order'] |= agg['order']
                 total['viol'].extend(agg['viol'])
                 total['harness'].extend(agg['harness'])
@@ -233,7 +251,8 @@ def check(prop, tier, level, rule_text, components_real, components_stub, assump
                     total['samples'].extend(agg['samples'][:3 - len(total['samples'])])
             if harness_fail:
                 break
-            stop = time.time() > deadline or (max_runs and next_i >= max_runs) or len(total['viol']) >= 200
+            n_new = sum(n for sg, n in total['sigcount'].items() if match_known(sg, known) is None)
+            stop = time.time() > deadline or (max_runs and next_i >= max_runs) or n_new >= 200
             if not stop:
                 while len(pending) < jobs * 2:
                     submit()
@@ -254,10 +273,10 @@ def check(prop, tier, level, rule_text, components_real, components_stub, assump
         k = match_known(sig, known)
         seed, v = items[0]
         if k is not None:
-            known_hits.append((k, sig, seed, len(items)))
+            known_hits.append((k, sig, seed, total['sigcount'].get(sig, len(items))))
             continue
         path = write_replay(prop, tier, seed, sig, v)
-        new_violations.append((sig, seed, v, path, len(items)))
+        new_violations.append((sig, seed, v, path, total['sigcount'].get(sig, len(items))))
 
     for k, sig, seed, n in known_hits:
         print(f'KNOWN-FINDING: property={prop} {k.get("what", sig)} [signature={sig} first_seed={seed} runs={n}]')
